@@ -84,7 +84,7 @@ def clash_candidates(events) -> list:
 
 # constants of Symbols.tla are irrelevant for trace validation (no model action is taken)
 NULL_CONSTANTS = dict(MaxSteps=0, Actions=set(), Names=set(), Latexes=set(), DimNames=set(), Assums=set(),
-                      CloneAssums=set(), Subs=set(), SysTypes=set(), BatchSizes=set())
+                      CloneAssums=set(), Subs=set(), SysTypes=set(), BatchSizes=set(), XSysTypes=set())
 
 
 def validate(run, sc: Path, traces: list, what: str, module: str = "SymbolsTrace", key_prefix: str = "next_id") -> dict:
